@@ -15,6 +15,7 @@ import (
 	"context"
 	"encoding/binary"
 	"fmt"
+	"io"
 	"net"
 	"sort"
 	"strings"
@@ -23,6 +24,7 @@ import (
 
 	kafka "github.com/segmentio/kafka-go"
 	"github.com/segmentio/kafka-go/protocol"
+	"github.com/segmentio/kafka-go/protocol/produce"
 
 	"kvharness/internal/connfake"
 	"kvharness/internal/msgs"
@@ -125,5 +127,47 @@ func selectVersions() {
 			}
 			fmt.Printf("selver %d %d %d\t%d\n", i, r[0], r[1], k.SelectVersion(r[0], r[1]))
 		}
+	}
+}
+
+// producePrepared: a Produce request whose RecordSet.Version the caller left 0 goes through protocol.Conn.RoundTrip (the path of
+// Transport / Client / Writer) at every version the library implements; RoundTrip calls Prepare(version), which picks the record
+// format.  The bytes written are captured; the oracle parses them under the golden schema of that version and looks at the magic
+// byte of the record set: message sets (0/1) below v3, record batches (2) from v3 on (Kafka rejects anything else).
+//
+//	prodfmt <i> <ver>\t<frame hex>
+func producePrepared() {
+	idx := indexOf("produce")
+	k := protocol.Produce
+	for v := k.MinVersion(); v <= k.MaxVersion(); v++ {
+		req := &produce.Request{Acks: 1, Timeout: 1000, Topics: []produce.RequestTopic{{Topic: "t", Partitions: []produce.RequestPartition{{
+			Partition: 0, RecordSet: protocol.RecordSet{Records: protocol.NewRecordReader(protocol.Record{
+				Time: time.Unix(1600000000, 0).UTC(), Key: protocol.NewBytes([]byte("k")), Value: protocol.NewBytes([]byte("v"))})}}}}}}
+		cli, srv := net.Pipe()
+		pc := protocol.NewConn(cli, "c")
+		pc.SetVersions(map[protocol.ApiKey]int16{k: v})
+		pc.SetDeadline(time.Now().Add(2 * time.Second))
+		done := make(chan struct{})
+		go func() { defer close(done); pc.RoundTrip(req) }()
+		var raw []byte
+		var szb [4]byte
+		srv.SetReadDeadline(time.Now().Add(2 * time.Second))
+		if _, err := io.ReadFull(srv, szb[:]); err == nil {
+			n := int(binary.BigEndian.Uint32(szb[:]))
+			if n > 0 && n < 1<<20 {
+				body := make([]byte, n)
+				if _, err := io.ReadFull(srv, body); err == nil {
+					raw = append(szb[:], body...)
+				}
+			}
+		}
+		srv.Close()
+		cli.Close()
+		<-done
+		out := "-"
+		if raw != nil {
+			out = fmt.Sprintf("%x", raw)
+		}
+		fmt.Printf("prodfmt %d %d\t%s\n", idx, v, out)
 	}
 }
